@@ -308,6 +308,9 @@ Definition keeps_as_written (l : list pyobj) : bool :=
 Definition plain_type_like (o : pyobj) : bool :=
   match o with OType _ | ONone | OStruct _ => true | _ => false end.
 
+Definition is_union_form (o : pyobj) : bool :=
+  match o with OType n => pystr_eqb n (s2p "typing.Union") | _ => false end.
+
 Definition py_or (oa ob : pyobj) : res pyobj :=
   match oa with
   | OFieldCls _ | OFieldInst _ =>                         (* FieldMeta.__or__ / Field.__or__ -> _or_fields *)
@@ -320,6 +323,8 @@ Definition py_or (oa ob : pyobj) : res pyobj :=
       | _ => Raise TypeError
       end
   | _ =>
+      (* typing.Union itself (the bare special form) as an operand: "Plain typing.Union is not valid as type argument" *)
+      if is_union_form oa || is_union_form ob then Raise TypeError else
       if plain_type_like oa && (plain_type_like ob || match ob with OFieldCls _ => true | _ => false end)
       then Ok (OUnionType [oa; ob])                        (* type.__or__: a types.UnionType *)
       else Raise Unmodelled
